@@ -31,7 +31,11 @@ PROGRAMS = [
     '  try { c(b); } catch (e) { var h = e; }\n  return [c, , h];\n}\n',
     'var x = {get p() { return 1; }, q: [1,, 2]};\nfor (var i in x) {\n'
     '  switch (i) {\n    case "p":\n      x[i]++;\n    default:\n  }\n}\n',
-    'a = 1;\nif (a) {\n  b: while (a) { break b; }\n}\nelse c = "s\\\nt";\n',
+    # the last one also has a scope wide enough for generated names of two
+    # letters and for the reserved words do / if / in to come up
+    'a = 1;\nif (a) {\n  b: while (a) { break b; }\n}\nelse c = "s\\\nt";\n'
+    '(function() {\n  var ' + ', '.join('v%d' % i for i in range(232)) +
+    ' = 1;\n  return v231;\n})();\n',
 ]
 
 
